@@ -58,6 +58,23 @@ def job_wrappers(prefix):
             q = base.calls
             ok = len(q) == 1 and z3.is_true(z3.simplify(z3.And(to_z3(q[0][0]) == -b, to_z3(q[0][1]) == -a)))
             rep.add(f'{tag}/frame.one-base-query(-tb,-ta)', 'frame', 'discharged' if ok else 'refuted', 'pyvc-exec')
+        # ---- ReverseBrownian.__init__: wraps exactly the object it is given, whatever its class (reversing twice is the original motion
+        #      only because two wrappers compose; the adjoint of an adjoint and solves on negative times rely on it)
+        rep.under_contract(D + '.ReverseBrownian.__init__')
+        cx = Ctx(E, [])
+        base = WR.BaseBM()
+        once = E.instantiate(_cls(E, 'ReverseBrownian'), [base], {}, cx, 0)
+        twice = E.instantiate(_cls(E, 'ReverseBrownian'), [once], {}, cx, 0)
+        ok = once.fields.get('base_brownian') is base and twice.fields.get('base_brownian') is once
+        rep.add(f'{prefix}/ReverseBrownian.__init__/post.wraps-exactly-the-given-object(also-a-ReverseBrownian)', 'post', 'discharged' if ok else 'refuted', 'pyvc-exec',
+                model=None if ok else {'ReverseBrownian(ReverseBrownian(bm)).base_brownian': repr(twice.fields.get('base_brownian'))})
+        ta, tb = cx.real('ta'), cx.real('tb')
+        out = E.call(E.get_attr(twice, '__call__', cx, 0), [ta, tb], {'return_U': True, 'return_A': True}, cx, 0)
+        a, b = ta.e, tb.e
+        hyps = [a <= b] + list(cx.pc)
+        prove(f'{prefix}/ReverseBrownian(ReverseBrownian(bm))/post.W', hyps, to_z3(out[0]) == WR.WC(b) - WR.WC(a), 'reversing twice gives the increments of the original path')
+        prove(f'{prefix}/ReverseBrownian(ReverseBrownian(bm))/post.U', hyps, to_z3(out[1]) == WR.VV(b) - WR.VV(a) - (b - a) * WR.WC(a))
+        prove(f'{prefix}/ReverseBrownian(ReverseBrownian(bm))/post.A', hyps, to_z3(out[2]) == WR.AA(a, b))
         # ---- BrownianPath / BrownianTree: interval queries are forwarded unchanged; point queries add w0; nothing is written
         for cname in ('BrownianPath', 'BrownianTree'):
             for (ru, ra) in ((False, False), (True, False), (True, True)):
